@@ -488,9 +488,63 @@ func checkEnforceFlag(c *Ctx, r *Report) {
 		return
 	}
 	fn := fi.SSA
-	avoid := map[edge]bool{}
 	var sites []string
 	reasons := map[string]int{}
+	// legitReason: the fact (cnd == pol) is one of the three legitimate reasons to answer "no diagnostic"
+	legitReason := func(cnd ssa.Value, pol bool) string {
+		a := sliceOf(cnd)
+		if bo, isB := cnd.(*ssa.BinOp); isB && a.hasFieldNamed("gleeceConfig") && !a.hasFieldNamed("EnforceSecurityOnAllRoutes") && (isNilConst(bo.X) || isNilConst(bo.Y)) {
+			if (bo.Op == token.EQL && pol) || (bo.Op == token.NEQ && !pol) {
+				return "no configuration"
+			}
+		}
+		if a.hasFieldNamed("EnforceSecurityOnAllRoutes") {
+			// cond is the flag itself (after unwrapping !): flag false is the legit edge
+			if _, isLoad := cnd.(*ssa.UnOp); isLoad && !pol {
+				return "flag off"
+			}
+		}
+		if e, arg := lenEmptiness(cnd, pol); e == 1 {
+			sa := sliceOf(arg)
+			if sa.Calls["core/metadata.GetRouteSecurityWithInheritance"] {
+				return "explicit/inherited security present"
+			} else if sa.Calls["core/metadata.GetDefaultSecurity"] {
+				return "configured default present"
+			}
+		}
+		return ""
+	}
+	var legit func(cnd ssa.Value, pol bool, depth int) bool
+	legit = func(cnd ssa.Value, pol bool, depth int) bool {
+		cnd, pol = unwrapNot(cnd, pol)
+		if why := legitReason(cnd, pol); why != "" {
+			reasons[why]++
+			return true
+		}
+		// a new predicate (bool, or (bool, error)): the fact is legitimate when every way
+		// for the predicate to give this answer is
+		if depth > 3 {
+			return false
+		}
+		var call *ssa.Call
+		idx := 0
+		switch x := cnd.(type) {
+		case *ssa.Call:
+			call = x
+		case *ssa.Extract:
+			call, _ = x.Tuple.(*ssa.Call)
+			idx = x.Index
+		}
+		if call == nil {
+			return false
+		}
+		h := w.newCallee(call)
+		if h == nil {
+			return false
+		}
+		return w.predicateAnswerOnlyVia(h, idx, pol, func(c2 ssa.Value, p2 bool) bool { return legit(c2, p2, depth+1) })
+	}
+	avoid := map[edge]bool{}
 	for _, b := range fn.Blocks {
 		if len(b.Instrs) == 0 {
 			continue
@@ -500,31 +554,8 @@ func checkEnforceFlag(c *Ctx, r *Report) {
 			continue
 		}
 		for i, s := range b.Succs {
-			cnd, pol := unwrapNot(ifi.Cond, i == 0)
-			a := sliceOf(cnd)
-			legit := ""
-			if bo, isB := cnd.(*ssa.BinOp); isB && a.hasFieldNamed("gleeceConfig") && !a.hasFieldNamed("EnforceSecurityOnAllRoutes") && (isNilConst(bo.X) || isNilConst(bo.Y)) {
-				if (bo.Op == token.EQL && pol) || (bo.Op == token.NEQ && !pol) {
-					legit = "no configuration"
-				}
-			}
-			if a.hasFieldNamed("EnforceSecurityOnAllRoutes") {
-				// cond is the flag itself (after unwrapping !): flag false is the legit edge
-				if _, isLoad := cnd.(*ssa.UnOp); isLoad && !pol {
-					legit = "flag off"
-				}
-			}
-			if e, arg := lenEmptiness(cnd, pol); e == 1 {
-				sa := sliceOf(arg)
-				if sa.Calls["core/metadata.GetRouteSecurityWithInheritance"] {
-					legit = "explicit/inherited security present"
-				} else if sa.Calls["core/metadata.GetDefaultSecurity"] {
-					legit = "configured default present"
-				}
-			}
-			if legit != "" {
+			if legit(ifi.Cond, i == 0, 0) {
 				avoid[edge{b, s}] = true
-				reasons[legit]++
 				sites = append(sites, w.pos(instrPos(b)))
 			}
 		}
@@ -678,6 +709,45 @@ func checkSchemeMembership(c *Ctx, r *Report, clause string) {
 		}
 		if nTrue != 1 {
 			viol = fmt.Sprintf("expected one `return true`, found %d", nTrue)
+			// the library form of the same test: slices.ContainsFunc(schemes, func(s) bool { return s.SecurityName == name })
+			if nTrue == 0 {
+				nLib := 0
+				for _, ex := range exitsOf(fi.SSA) {
+					if ex.Ret == nil {
+						continue
+					}
+					cl, ok := stripTrivial(ex.Ret.Results[0]).(*ssa.Call)
+					if !ok || !strings.HasPrefix(calleeName(cl), "slices.ContainsFunc") || len(cl.Call.Args) != 2 {
+						nLib = -1000
+						continue
+					}
+					mc, ok := cl.Call.Args[1].(*ssa.MakeClosure)
+					if !ok {
+						nLib = -1000
+						continue
+					}
+					exact := true
+					for _, cex := range exitsOf(mc.Fn.(*ssa.Function)) {
+						if cex.Ret == nil {
+							continue
+						}
+						bo, isB := stripTrivial(cex.Ret.Results[0]).(*ssa.BinOp)
+						if !isB || bo.Op != token.EQL {
+							exact = false
+							continue
+						}
+						if a := sliceOf(bo); !a.hasFieldNamed("SecurityName") || len(a.FreeVars) < 1 {
+							exact = false
+						}
+					}
+					if exact {
+						nLib++
+					}
+				}
+				if nLib >= 1 {
+					viol = ""
+				}
+			}
 		}
 		r.add(clause, "guardedby", fi.Key+":membership", "a scheme name is 'declared' only if some configured scheme has exactly that SecurityName", []string{fi.Key}, sites, viol)
 	}
